@@ -736,3 +736,8 @@ def finish(tier, rep: Report):
             fails.append("coverage flag missing: " + fl)
     return fails
 
+
+def dupflag_variant(task, tier):
+    """Tasks that are also run with config.display_duplicate_attribute_warning = True (the runner appends
+    ':duplicate_attribute_flag' to the input class of anything found there)."""
+    return bool(task.get("kind") == "feat" and task.get("family") == "surf")
